@@ -407,6 +407,16 @@ def combos(rng, d, depth):
             return cell, {"properties": {pick[0]: s3, pick[1]: {"items": s3}}, "additionalProperties": s3,
                           "patternProperties": {"^zz": s1}}, \
                 {pick[0]: b3, pick[1]: [g3, b3], pick[2]: b3, pick[3]: {pick[4]: b3}, "zz" + pick[2]: b1}, {pick[0]: g3}
+        if cell == "keyword-named-members":
+            # member names that are spelled like keywords (a schema path step "if" may be the keyword or a property)
+            names = ["if", "$ref", "then", "else", "not", "items", "properties", "type", "allOf", "anyOf", "additionalProperties", "dependencies",
+                     "required", "enum", "const", "id", "$id", "definitions", "extends", "contains", "propertyNames", "patternProperties", "oneOf"]
+            rng.shuffle(names)
+            pick = names[:5]
+            sch = {"properties": {pick[0]: s3, pick[1]: {"items": s3}, pick[2]: {"properties": {pick[0]: s3}}},
+                   "patternProperties": {"^" + pick[3].replace("$", "[$]") + "$": s3},
+                   "dependencies": {pick[4]: {"properties": {pick[0]: s1}} if d >= 4 else {"properties": {pick[0]: s1}}}}
+            return cell, sch, {pick[0]: b3, pick[1]: [g3, b3], pick[2]: {pick[0]: b3}, pick[3]: b3, pick[4]: 1}, {pick[0]: g3}
         if cell == "contains-not":
             return cell, {"items": [{}, {"not": {}}, {"contains": {"type": "null"}}]}, [1, 2, [3]], [1]
         raise AssertionError(cell)
@@ -432,7 +442,7 @@ def _bad_for_all(d, schemas):
 
 def cells(d):
     c = ["items-list", "items-schema", "additionalItems", "properties", "patternProperties", "additionalProperties",
-         "dependencies", "hostile-keys"]
+         "dependencies", "hostile-keys", "keyword-named-members"]
     if d == 3:
         c += ["extends-list", "extends-schema", "type-union", "d3-required"]
     else:
